@@ -45,10 +45,12 @@ def diff_events(pred, obs, limit=6):
     return out
 
 
-def check_against_model(prog, res):
+def check_against_model(prog, res, quirks=True, model_out=None):
     """C03 (and the value half of C01/C02): same evaluations on the same values, same writes, same recorder streams,
     same cycle times. Returns (clause, detail) or None."""
-    m, mcycles, mevents = predicted(prog)
+    m, mcycles, mevents = predicted(prog, quirks=quirks)
+    if model_out is not None:
+        model_out.append(m)
     cycles, obs = observed(res.events)
     d = diff_events(mevents, obs)
     if d:
